@@ -19,6 +19,7 @@ type Rec struct {
 	sc    string
 	start time.Time
 	evs   []Ev
+	idle  int // number of periodic background events in evs
 }
 
 func NewRec(sc string) *Rec {
@@ -38,6 +39,10 @@ func (r *Rec) Log(ev string, kv ...any) int {
 	e["i"] = len(r.evs) + 1
 	e["t"] = int(time.Since(r.start) / time.Microsecond)
 	r.evs = append(r.evs, e)
+	switch ev {
+	case "BRecvPing", "BSendPong", "BSendPing", "BRecvPong", "Stall":
+		r.idle++ // periodic background events: they do not count as activity for "quiesce"
+	}
 	n := len(r.evs)
 	r.cond.Broadcast()
 	r.mu.Unlock()
@@ -46,6 +51,13 @@ func (r *Rec) Log(ev string, kv ...any) int {
 
 // NowUs is the scenario-relative time in microseconds.
 func (r *Rec) NowUs() int { return int(time.Since(r.start) / time.Microsecond) }
+
+// Activity is the number of events so far that are not periodic background events (keep-alive traffic, stall reports).
+func (r *Rec) Activity() int {
+	r.mu.Lock()
+	defer r.mu.Unlock()
+	return len(r.evs) - r.idle
+}
 
 // Len is the number of events so far.
 func (r *Rec) Len() int {
